@@ -272,8 +272,12 @@ func drive(ck *Check, tier string, seed int64) int {
 	var final []Violation
 	for i := range c.Viol {
 		v := c.Viol[i]
-		key := v.Clause + "|" + v.Site
-		if perKey[key] >= 4 {
+		key, limit := v.Clause+"|"+v.Site, 4
+		if kf := known.Match(&v); kf != "" {
+			// a listed finding has its own key: it must not use up the room of other violations of the same clause
+			key, limit = "known|"+kf, 1
+		}
+		if perKey[key] >= limit {
 			continue
 		}
 		perKey[key]++
